@@ -114,6 +114,15 @@ fn check_list(test: &str, tags: &[u32], vals: &[Vec<u8>]) {
     if sink.buf != want {
         fail(test, "emitted bytes differ from the Roughtime layout with ties in insertion order (new)", tags, vals);
     }
+    // the same wrapper into a REAL OwningIovec (one of the ZeroCopySink targets the property names)
+    {
+        let mut iovec = owning_iovec::OwningIovec::new();
+        w.to_rough_tlv(&mut iovec);
+        match iovec.flatten() {
+            Ok(bytes) if bytes == want => {}
+            _ => fail(test, "bytes written into an OwningIovec differ from the Roughtime layout", tags, vals),
+        }
+    }
     // new_from_slice on Cow values (odd ranks owned)
     let mut cows: Vec<(Tag, Cow<[u8]>)> = (0..n)
         .map(|i| (Tag::new_from_u32(tags[i]), if i % 2 == 1 { Cow::Owned(vals[i].clone()) } else { Cow::Borrowed(&vals[i][..]) }))
